@@ -234,7 +234,7 @@ CLAIMED = {
               '(per-process event files); each run is one trace (start / take / finish / end) validated by TLC against BatchTrace.tla, whose '
               'constants are the isolated conversions of every file (done twice, must agree): results and output tree (digests without the '
               'creation-time line) must equal the isolated ones.  Fault enumeration: a valid file per format truncated / bit-flipped / overwritten '
-              'at enumerated positions plus empty and foreign files, converted under a watchdog: always a result, never an escaping exception.  The task list: DirWalk.tla (every file in scope exactly once, output path = output directory + relative path, equal sizes included) checked by TLC for every small tree and replayed on disk through the real dirWalk in all modes.  Beyond the property: ProcLog.tla models the --log-process thread; TLC\'s counterexample (join() blocks for ever) is replayed on the real thread and recorded in the evidence (no verdict).'),
+              'at enumerated positions plus empty and foreign files, converted under a watchdog: always a result, never an escaping exception.  The task list: DirWalk.tla (every file in scope exactly once, output path = output directory + relative path, equal sizes included) checked by TLC for every small tree and replayed on disk through the real dirWalk in all modes; DirWalkDeep.tla does the same for trees of any depth (the flags must travel down every level; the design that forgets `recursive` in the biggest-first branch is refuted at depth 2).  Beyond the property: ProcLog.tla models the --log-process thread; TLC\'s counterexample (join() blocks for ever) is replayed on the real thread and recorded in the evidence (no verdict).'),
         note=('Known finding F25 (same-stem RP66V1 inputs write the same LAS paths) is judged in its own scenario and recognised only when every '
               'difference is confined to the colliding files.  Benign damage may still convert.'),
         technique='TLA+ spec + TLC model checking of all schedules (safety + liveness); TLC trace validation of real pool/sequential runs; fault enumeration'),
@@ -247,7 +247,9 @@ CLAIMED = {
               'only flushes at an absent sample is refuted.  The real LineTransLin / LineTransLog10 are replayed on the lattice and at extreme '
               'magnitudes (1e+-300, 5e-324, 1.7e308, non-positive on log).  Real plots: generated LIS log passes (constant, ramps over many '
               'wraps, spikes, huge, tiny, negative on log scales, absent runs) are plotted by PlotReadLIS with generated FILM/PRES tables (five '
-              'tracks, scales in both directions, linear and logarithmic, every back-up mode) and by PlotReadXML with the built-in formats; '
+              'whole tracks, spans and half tracks, scales in both directions, linear and logarithmic, every back-up mode; the track a curve is scaled into must '
+              'be the one its TRAC string names, judged from the whole tracks by the notation\'s algebra, and FilmTrack.tla binds the whole of '
+              'PhysFilmCfg.interpretTrac through a TLC table) and by PlotReadXML with the built-in formats; '
               'wrapPos calls, points handed to PlotRoll.polyLinePt and polyline flushes are recorded from the harness process and every curve is '
               'one trace validated by TLC against PlotWrapTrace.tla (scale position computed from the inputs only, quantised); the SVG must be '
               'well-formed, its polylines exactly the recorded points, inside the view box and between the plot margins.'),
